@@ -21,15 +21,22 @@ import (
 )
 
 type sop struct {
-	kind string // open add addempty addbad compactall expire close read clean addmulti
-	tx   int    // transaction id for add
-	auto bool
+	kind  string // open add addempty addbad compactall expire close read clean addmulti compact
+	tx    int    // transaction id for add
+	auto  bool
+	same  bool // addmulti: the second table claims the same update index as the first (must be refused)
+	first int  // compact: range
+	last  int
 }
 
 func (o sop) String() string {
 	switch o.kind {
-	case "add", "addmulti":
+	case "add":
 		return fmt.Sprintf("%s(%d,%d)", o.kind, o.tx, b2i(o.auto))
+	case "addmulti":
+		return fmt.Sprintf("%s(%d,%d)", o.kind, o.tx, 2*b2i(o.same))
+	case "compact":
+		return fmt.Sprintf("compact(%d,%d)", o.first, o.last)
 	}
 	return o.kind
 }
@@ -181,10 +188,10 @@ func txHash(tx int, hs int) []byte {
 	return h
 }
 
-func txWriter(st *reftable.Stack, tx int, hs int, second bool) func(w *reftable.Writer) error {
+func txWriter(st *reftable.Stack, tx int, hs int, second bool, bump bool) func(w *reftable.Writer) error {
 	return func(w *reftable.Writer) error {
 		ui := st.NextUpdateIndex()
-		if second {
+		if bump {
 			ui++
 		}
 		w.SetLimits(ui, ui)
@@ -260,15 +267,15 @@ func (e *sexec) runHandle(h *shandle) {
 				switch op.kind {
 				case "add":
 					e.lastTx[h.id] = op.tx
-					err = h.st.Add(txWriter(h.st, op.tx, hs, false))
+					err = h.st.Add(txWriter(h.st, op.tx, hs, false, false))
 				case "addmulti":
 					e.lastTx[h.id] = op.tx
 					var tr *reftable.Addition
 					tr, err = h.st.NewAddition()
 					if err == nil {
-						err = tr.Add(txWriter(h.st, op.tx, hs, false))
+						err = tr.Add(txWriter(h.st, op.tx, hs, false, false))
 						if err == nil {
-							err = tr.Add(txWriter(h.st, op.tx, hs, true))
+							err = tr.Add(txWriter(h.st, op.tx, hs, true, !op.same))
 						}
 						if err == nil {
 							err = tr.Commit()
@@ -297,6 +304,16 @@ func (e *sexec) runHandle(h *shandle) {
 				}
 				if err := h.st.CompactAll(nil); err != nil {
 					res = "err"
+				}
+			case "compact":
+				if h.st == nil {
+					res = "nostack"
+					return
+				}
+				if n := len(reftable.VerifTableNames(h.st)); op.last < n && op.first <= op.last {
+					if _, err := reftable.VerifCompactRange(h.st, op.first, op.last, nil); err != nil {
+						res = "err"
+					}
 				}
 			case "expire":
 				if h.st == nil {
@@ -385,7 +402,15 @@ func (e *sexec) readView(h *shandle) string {
 
 // ---- the scheduler ----
 
+// run handle h until its next (pending) operation matches `until` for the n-th time, or it is done
+type directive struct {
+	h     int
+	until string // e.g. "open:T", "read_file:L", "create_excl:LL", "rename:LL", "remove:T", "call:add"; "" = to completion
+	n     int
+}
+
 type schedule struct {
+	directed []directive
 	first    int
 	switches map[int]bool // global step indices at which to pre-empt
 	crashAt  map[int]int  // handle id -> crash before its k-th step (k counts that handle's steps)
@@ -420,6 +445,20 @@ func (e *sexec) run(s schedule) {
 	alive := func(h *shandle) bool { return !h.done && !h.crashed }
 	cur := s.first % len(e.handles)
 	xi := 0
+	di, dcount := 0, 0
+	pendingOf := func(h *shandle) string {
+		if !h.npending {
+			return ""
+		}
+		op, p1 := h.pending[0], h.pending[1]
+		if op == "call" {
+			return "call:" + p1
+		}
+		if op == "create_temp" {
+			return "create_temp:TMP"
+		}
+		return op + ":" + e.canon(p1)
+	}
 	for {
 		n := 0
 		for _, h := range e.handles {
@@ -430,7 +469,23 @@ func (e *sexec) run(s schedule) {
 		if n == 0 {
 			break
 		}
-		if s.explicit != nil && xi < len(s.explicit) {
+		if di < len(s.directed) {
+			d := s.directed[di]
+			h := e.handles[d.h%len(e.handles)]
+			stop := !alive(h)
+			if !stop && d.until != "" && strings.HasPrefix(pendingOf(h), d.until) {
+				dcount++
+				if dcount >= d.n {
+					stop = true
+				}
+			}
+			if stop {
+				di++
+				dcount = 0
+				continue
+			}
+			cur = h.id
+		} else if s.explicit != nil && xi < len(s.explicit) {
 			cur = s.explicit[xi] % len(e.handles)
 			xi++
 		} else if s.switches[e.steps] {
